@@ -36,6 +36,12 @@ def main() -> int:
 
 if __name__ == "__main__":
     import os
-    rc = main()
+    try:
+        rc = main()
+    except BaseException:  # noqa: BLE001 - worker threads of a deadlocked tree must not keep the process alive
+        import traceback
+        traceback.print_exc()
+        rc = 3
     sys.stdout.flush()
+    sys.stderr.flush()
     os._exit(rc)
